@@ -8,7 +8,7 @@ from .. import core, engcorpus, interp
 SPEC_OF = {
     "C10": "CommandsTrace", "C11": "CommandsTrace", "C12": "CommandsTrace",
     "C01": "InterpTrace", "C02": "InterpTrace", "C03": "InterpTrace", "C04": "InterpTrace", "C05": "InterpTrace",
-    "C14": "InterpTrace", "C15": "InterpTrace", "C41": "InterpTrace",
+    "C14": "InterpTrace", "C15": "InterpTrace", "C41": "InterpTrace", "C16": "TagReportTrace", "C36": "TagReportTrace",
     "C06": "RunStateTrace", "C07": "RunStateTrace", "C08": "RunStateTrace", "C09": "RunStateTrace", "C13": "RunStateTrace",
 }
 # property -> design spec (module, quick cfg, thorough cfg) model-checked by TLC in the check itself
@@ -18,9 +18,10 @@ DESIGN_OF = {
     "C13": ("RunState", "RunState.cfg", "RunStateDeep.cfg"),
     "C10": ("Commands", "Commands.cfg", "Commands.cfg"), "C11": ("Commands", "Commands.cfg", "Commands.cfg"),
     "C12": ("Commands", "Commands.cfg", "Commands.cfg"),
+    "C16": ("TagReport", "TagReport.cfg", "TagReportDeep.cfg"), "C36": ("TagReport", "TagReport.cfg", "TagReportDeep.cfg"),
 }
 PROJECT = {"RunStateTrace": engcorpus.project_runstate, "CommandsTrace": engcorpus.project_commands,
-           "InterpTrace": interp.project_interp}
+           "InterpTrace": interp.project_interp, "TagReportTrace": engcorpus.project_tags}
 
 
 def _validate(ctx, spec, corp):
